@@ -857,6 +857,7 @@ def shrink(ctx, env):
         if key not in firsts and len(firsts) < 5:
             firsts[key] = v
     cands = []
+    cand_terms = {}
     for key, v in firsts.items():
         proc = v["replay"]["proc"]
         if proc not in PROCS or proc == "propagate":
@@ -867,6 +868,7 @@ def shrink(ctx, env):
             continue
         for sub in bool_subterms(env, f):
             cands.append((key, proc, sub))
+            cand_terms.setdefault(key, set()).add(wire.enc_term(sub))
     if not cands or ctx.time_left() < 30:
         return
     scratch = common.Ctx(ctx.prop, ctx.tier, ctx.seed)
@@ -876,7 +878,8 @@ def shrink(ctx, env):
         best = None
         for w in scratch.s_violations:
             if w["sig"].get("proc") == v["sig"].get("proc") and w["sig"].get("oracle") == v["sig"].get("oracle") \
-                    and w["sig"].get("shape") == v["sig"].get("shape"):
+                    and w["sig"].get("shape") == v["sig"].get("shape") \
+                    and w["replay"]["term"] in cand_terms.get(key, ()):
                 if best is None or len(w["replay"]["term"]) < len(best["replay"]["term"]):
                     best = w
         if best is not None and len(best["replay"]["term"]) < len(v["replay"]["term"]):
@@ -908,6 +911,9 @@ def probes(env):
     out.append(("propagate", m.And(m.Equals(x, m.Int(1)), m.Equals(x, m.Int(2)))))
     out.append(("propagate", m.And(m.Equals(y, x), m.ForAll([x], m.LE(x, y)))))          # capture (F51)
     out.append(("propagate", m.Equals(m.String("a"), m.String("b"))))                     # F50
+    # F52: a constant joins a class led by a symbol; the constant is also the index of an array value
+    out.append(("propagate", m.And(m.Equals(m.Select(m.Array(INT, m.Int(0), {m.Int(5): m.Int(1)}), x), m.Int(1)),
+                                   m.Equals(y, m.Int(5)), m.Equals(x, y))))
     out.append(("propagate", m.And(m.Equals(s, m.String("a")), m.Equals(s, t), m.StrContains(t, s))))
     out.append(("times", m.Times(m.Plus(x, m.Int(1)), m.Minus(y, m.Int(1)), x)))
     qb = m.Symbol("qb")
